@@ -539,6 +539,44 @@ def acq_post(alg, cfg, post):
     return None
 
 
+def flat_pareto(alg, cfg, n):
+    """NaiveElimination / DecoupledGP: the reported P and the strict-dominance relation of the current mean estimates (tri-valued)"""
+    out = {"P": [], "sd": [], "amb": []}
+    try:
+        if cfg["alg"] == "NaiveElimination":
+            if alg.samples.shape[1] == 0:
+                return out
+            mu = alg.samples.mean(axis=-2)
+        else:
+            mu = np.asarray(alg.model.predict(alg.points)[0], dtype=float)
+        P = [int(i) + 1 for i in np.asarray(alg.P).reshape(-1)] if not isinstance(alg.P, set) else sorted(int(i) + 1 for i in alg.P)
+        cone = GR.Cone(alg.order.ordering_cone.W)
+        t = GR.TAU * GR._scale(mu)
+        for j in range(n):
+            for i in range(n):
+                if i == j:
+                    continue
+                d = mu[j] - mu[i]
+                fw = float((cone.W @ d / cone.norms).min())      # >= 0 : j dominates i
+                bw = float((cone.W @ (-d) / cone.norms).min())   # >= 0 : i dominates j
+                dom = True if fw > t else (False if fw < -t else None)
+                rev = True if bw > t else (False if bw < -t else None)
+                if dom is True and rev is False:
+                    out["sd"].append([j + 1, i + 1])          # j strictly dominates i
+                elif dom is False or rev is True:
+                    pass
+                else:
+                    out["amb"].append([j + 1, i + 1])
+        out["P"] = sorted(P)
+        if len(out["amb"]) > 8:
+            out = {"P": [], "sd": [], "amb": [], "skipped": True}
+            out["P"] = sorted({i for i in range(1, n + 1)})          # not judged: make the clause trivially true
+            out["sd"], out["amb"] = [], []
+    except Exception as e:
+        out["error"] = repr(e)[:100]
+    return out
+
+
 # --------------------------------------------------------------------------------------------- recording a run
 def record(cfg):
     """run the algorithm described by cfg, return the trace dict (never raises for algorithm errors)."""
@@ -582,7 +620,7 @@ def record(cfg):
         step = {"pre": pre, "post": post, "ret": ret, "exc": exc, "gate": True,
                 "rel": {"a": [], "b": [], "c": []}, "amb": {"a": [], "b": [], "c": []},
                 "req": [], "rows": 0, "acq": {"cand": [], "rank": []}, "acqchk": False,
-                "data": {"gained": [], "returned": []}}
+                "data": {"gained": [], "returned": []}, "flat": {"P": [], "sd": [], "amb": []}}
         try:
             pre["cost"], post["cost"] = _intcost(pre["cost"]), _intcost(post["cost"])
         except tlc.MachineryError:
@@ -643,6 +681,8 @@ def record(cfg):
                             "synced": model_synced(alg)}
             if smodel is not None:     # the scripted model stores nothing: the data clause is judged on real-model runs only
                 step["data"] = {"gained": step["data"]["returned"], "returned": step["data"]["returned"], "synced": True}
+        if not exc and ALG_FAM[cfg["alg"]] == "flat":
+            step["flat"] = flat_pareto(alg, cfg, n)
         T["steps"].append(step)
         if exc:
             break
@@ -658,7 +698,7 @@ def record(cfg):
 
 # --------------------------------------------------------------------------------------------- validation by TLC
 TRACE_KEYS = ("tid", "alg", "n", "m", "batch", "costs", "budget", "L", "steps")
-STEP_KEYS = ("pre", "post", "ret", "exc", "gate", "rel", "amb", "req", "rows", "acq", "acqchk", "data", "skipsets")
+STEP_KEYS = ("pre", "post", "ret", "exc", "gate", "rel", "amb", "req", "rows", "acq", "acqchk", "data", "skipsets", "flat")
 
 
 def to_ndjson(traces, path):
@@ -669,6 +709,7 @@ def to_ndjson(traces, path):
             for s in T["steps"]:
                 s2 = {k: s[k] for k in STEP_KEYS if k in s}
                 s2.setdefault("skipsets", False)
+                s2["flat"] = {k: s.get("flat", {}).get(k, []) for k in ("P", "sd", "amb")}
                 s2["data"] = {"gained": s["data"]["gained"], "returned": s["data"]["returned"], "synced": bool(s["data"].get("synced", True))}
                 t["steps"].append(s2)
             fh.write(json.dumps(t) + "\n")
